@@ -1179,6 +1179,26 @@ func ruleStoredSliceReuse(r *Run) {
 			key := fmt.Sprintf("%s/stored:%s", shortFunc(fn), w.Target())
 			web := sliceAliasWeb(fn, val)
 			var hit ssa.Instruction
+			// the in-place removal idiom in a loop, `x.f = append(x.f[:i], x.f[i+1:]...)`: the result replaces the
+			// stored value in the very place it was stored, no second holder of the array exists
+			storedBack := func(ap *ssa.Call) bool {
+				st, ok := w.Instr.(*ssa.Store)
+				if !ok || ap.Referrers() == nil {
+					return false
+				}
+				fa, ok := st.Addr.(*ssa.FieldAddr)
+				if !ok {
+					return false
+				}
+				for _, ref := range *ap.Referrers() {
+					if s2, ok := ref.(*ssa.Store); ok && s2.Val == ssa.Value(ap) {
+						if fa2, ok := s2.Addr.(*ssa.FieldAddr); ok && fa2.Field == fa.Field && fa2.X == fa.X {
+							return true
+						}
+					}
+				}
+				return false
+			}
 			q := pathQuery{fn: fn, start: w.Instr, target: func(in ssa.Instruction) bool {
 				sl, ok := in.(*ssa.Slice)
 				if !ok || !web[sl.X] {
@@ -1188,14 +1208,14 @@ func ruleStoredSliceReuse(r *Run) {
 				for _, ref := range *sl.Referrers() {
 					switch y := ref.(type) {
 					case *ssa.Call:
-						if b, ok := y.Call.Value.(*ssa.Builtin); ok && b.Name() == "append" && y.Call.Args[0] == ssa.Value(sl) {
+						if b, ok := y.Call.Value.(*ssa.Builtin); ok && b.Name() == "append" && y.Call.Args[0] == ssa.Value(sl) && !storedBack(y) {
 							hit = in
 							return true
 						}
 					case *ssa.Phi:
 						for _, r2 := range *y.Referrers() {
 							if c, ok := r2.(*ssa.Call); ok {
-								if b, ok := c.Call.Value.(*ssa.Builtin); ok && b.Name() == "append" && c.Call.Args[0] == ssa.Value(y) {
+								if b, ok := c.Call.Value.(*ssa.Builtin); ok && b.Name() == "append" && c.Call.Args[0] == ssa.Value(y) && !storedBack(c) {
 									hit = in
 									return true
 								}
